@@ -15,7 +15,10 @@ types int/short/float/double, Interval + Box2 + Box3 + generic Box4, against the
 independently by brute force; every extendBy sequence (points to length 3, points/boxes to length 2, sampled
 mixed length 3); clip / closestPointOnBox against brute-force nearest points; random float/double boxes incl.
 extremes; transforms on lattice/dyadic affine and projective matrices x boxes incl. empty and infinite against
-the exact 8-corner bound, overload agreement for any old `result`, empty->empty, infinite->infinite.
+the exact 8-corner bound, overload agreement for any old `result`, empty->empty, infinite->infinite; plus, deterministic
+in every tier, ALL 16 zero/non-zero patterns of the last matrix column x 3 base matrices x 2 values each of c and k x
+7 boxes x 4 overloads x 3 old results (each term of the affine test is the only failing one for some matrix), every
+projective result compared bit for bit with the fresh eight-corner loop.
 
 A law that the real code violates is reported as a VIOLATION with a stable key naming the call site.  The five laws
 box-intersects:empty-vs-containing, interval-intersects:empty-vs-containing, transform-outparam:empty-input-leaves-result,
@@ -233,7 +236,7 @@ def run(chk):
         chk.fail("build:drv_boxt", "build:drv_boxt", "the model driver does not build", {"output": out[-2000:]}, False)
         return
     rc, mo = lib.sh([DRV], stdin="\n".join(trn[5]) + "\n", timeout=1800)
-    m = re.search(r"MODEL lines=(\d+) compared=(\d+) diffs=(\d+) ovl0=(\d+) ovl1=(\d+) ovl2=(\d+) ovl3=(\d+) empty=(\d+) infinite=(\d+) affine=(\d+) projective=(\d+)", mo)
+    m = re.search(r"MODEL lines=(\d+) compared=(\d+) diffs=(\d+) ovl0=(\d+) ovl1=(\d+) ovl2=(\d+) ovl3=(\d+) empty=(\d+) infinite=(\d+) affine=(\d+) projective=(\d+) single0=(\d+) single1=(\d+) single2=(\d+) single3=(\d+)", mo)
     okm = rc == 0 and m is not None and int(m.group(3)) == 0 and int(m.group(2)) > 0
     chk.oblige("corr:transform:model=impl:all-four-overloads:exact-cases", "correspondence", okm, None if okm else mo[-600:])
     if m:
@@ -241,8 +244,11 @@ def run(chk):
         chk.count(g[1], g[9] + g[10])
         chk.extra["transform_model_correspondence"] = dict(zip(
             ["lines", "compared_exactly", "diffs", "transform(box,m)", "transform(box,m,result)", "affineTransform(box,m)", "affineTransform(box,m,result)",
-             "empty_inputs", "infinite_inputs", "affine_path", "projective_path"], g))
-        for need, nm in ((g[7], "empty"), (g[8], "infinite"), (g[9], "affine"), (g[10], "projective")):
+             "empty_inputs", "infinite_inputs", "affine_path", "projective_path", "only_m03_nonzero", "only_m13_nonzero", "only_m23_nonzero",
+             "only_m33_not_1"], g))
+        for need, nm in ((g[7], "empty"), (g[8], "infinite"), (g[9], "affine"), (g[10], "projective"),
+                         (g[11], "affine-test-term-m[0][3]-alone-fails"), (g[12], "affine-test-term-m[1][3]-alone-fails"),
+                         (g[13], "affine-test-term-m[2][3]-alone-fails"), (g[14], "affine-test-term-m[3][3]-alone-fails")):
             chk.oblige("corr:transform:branch-hit:" + nm, "coverage", need > 0)
     if not okm:
         diffs = [l for l in mo.split("\n") if l.startswith("DIFF")]
